@@ -300,6 +300,39 @@ def impl_classes(_: dict) -> dict:
                 chk(True, "")
             except BaseException as e:  # noqa: BLE001
                 chk(False, f"{K.__name__}: violating {label}: {type(e).__name__} instead of a DLTypeError")
+    # a namedtuple that annotates only some fields: each annotated field is checked against ITS value
+    try:
+        r = L.PartiallyAnnotated("id-7", X, "anything", Y)
+        chk(r.image is X and r.mask is Y and r.sample_id == "id-7", "partially annotated namedtuple: fields differ")
+    except BaseException as e:  # noqa: BLE001
+        chk(False, f"partially annotated namedtuple: conforming construction raised {type(e).__name__}: {e}")
+    for label, args in (("image", ("id", np.zeros((2,), dtype=np.float32), "anything", Y)), ("mask", ("id", X, "anything", np.zeros((4,), dtype=np.int32))),
+                        ("mask (dtype; the un-annotated field before it conforms to image's hint)", ("id", X, X, np.zeros((3,), dtype=np.float32)))):
+        try:
+            L.PartiallyAnnotated(*args)
+            chk(False, f"partially annotated namedtuple: a violating {label} was accepted")
+        except dltype.DLTypeError:
+            chk(True, "")
+        except BaseException as e:  # noqa: BLE001
+            chk(False, f"partially annotated namedtuple: violating {label}: {type(e).__name__} instead of a DLTypeError")
+    # string annotations resolved in the function's own module although a wrapper from another module sits in between
+    import warnings as _w
+
+    with _w.catch_warnings(record=True) as caught:
+        _w.simplefilter("always")
+        try:
+            chk(L.through_foreign_wrapper(X, Y) is X, "function behind a foreign functools.wraps wrapper: wrong object returned")
+        except BaseException as e:  # noqa: BLE001
+            chk(False, f"function behind a foreign wrapper: conforming call raised {type(e).__name__}: {e}")
+        for label, args in (("first argument", (np.zeros((2,), dtype=np.float32), Y)), ("second argument", (X, np.zeros((4,), dtype=np.int32)))):
+            try:
+                L.through_foreign_wrapper(*args)
+                chk(False, f"function with string annotations behind a functools.wraps wrapper from another module: a violating {label} was accepted")
+            except dltype.DLTypeError:
+                chk(True, "")
+            except BaseException as e:  # noqa: BLE001
+                chk(False, f"function behind a foreign wrapper: violating {label}: {type(e).__name__} instead of a DLTypeError")
+    chk(not any("skipped" in str(w_.message) for w_ in caught), "function behind a foreign wrapper: type checking was skipped (hints not resolved)")
     # a field(init=False) filled in by __post_init__ is a field like the others
     try:
         inst = L.WithDerivedField(X)
